@@ -139,3 +139,126 @@ theorem findList?_mergeRuns (keep : Keep) {z : Nat} {L : List HTree}
   | cons a rest => exact findList?_mergeInto keep rest a h
 
 end XotModel
+
+namespace XotModel
+open HTree Spec
+
+/-! ### Counting handles through an edit -/
+
+mutual
+  theorem count_editAt {p : Nat} {v : Value} {L : List HTree} {g : List HTree → List HTree} (z : Nat) :
+      ∀ t : HTree, (handles t).Nodup → find? p t = some (.node p v L) →
+      (handles (HTree.editAt p g t)).count z + (handlesList L).count z =
+        (handles t).count z + (handlesList (g L)).count z
+    | .node h v' ks => by
+      intro nd e
+      obtain ⟨n1, n2⟩ := nodup_handles_node nd
+      rw [find?_node] at e
+      rw [editAt_node]
+      by_cases hh : h = p
+      · rw [if_pos hh] at e
+        have e' := Option.some.inj e
+        injection e' with _ _ e3
+        subst e3
+        rw [if_pos hh, handles_node, handles_node, List.count_cons, List.count_cons]
+        omega
+      · rw [if_neg hh] at e
+        rw [if_neg hh, handles_node, handles_node, List.count_cons, List.count_cons]
+        have := count_editAt_list (g := g) z ks n2 e
+        omega
+  theorem count_editAt_list {p : Nat} {v : Value} {L : List HTree} {g : List HTree → List HTree} (z : Nat) :
+      ∀ ks : List HTree, (handlesList ks).Nodup → findList? p ks = some (.node p v L) →
+      (handlesList (ks.map (HTree.editAt p g))).count z + (handlesList L).count z =
+        (handlesList ks).count z + (handlesList (g L)).count z
+    | [] => by intro _ e; rw [findList?_nil] at e; cases e
+    | k :: ks => by
+      intro nd e
+      obtain ⟨n1, n2, n3⟩ := nodup_handlesList_cons nd
+      rw [List.map_cons, handlesList_cons, handlesList_cons, List.count_append, List.count_append]
+      cases hk : find? p k with
+      | some t =>
+        rw [findList?_cons_some hk] at e
+        have e' := Option.some.inj e
+        subst e'
+        have hpn : p ∉ handlesList ks := n3 p (mem_of_find?_some hk)
+        rw [map_editAt_of_not_mem ks hpn]
+        have := count_editAt (g := g) z k n1 hk
+        omega
+      | none =>
+        rw [findList?_cons_none hk] at e
+        have hpk : p ∉ handles k := by
+          intro hm
+          have := find?_isSome_of_mem k hm
+          rw [hk] at this; cases this
+        rw [editAt_of_not_mem k hpk]
+        have := count_editAt_list (g := g) z ks n2 e
+        omega
+end
+
+/-- Handles after one edit: the old child list's handles are exchanged for the new one's. -/
+theorem SiteAt.count {f : Forest} {p : Nat} {v : Value} {L : List HTree} (s : SiteAt f p v L)
+    (g : List HTree → List HTree) (z : Nat) :
+    (f.editAt (some p) g).allHandles.count z + (handlesList L).count z =
+      f.allHandles.count z + (handlesList (g L)).count z :=
+  count_editAt_list z f.roots s.nd s.kids
+
+/-- The edit keeps handles distinct if the new child list uses each handle at most as often as
+    the forest can afford. -/
+theorem SiteAt.nodup_of_count {f : Forest} {p : Nat} {v : Value} {L : List HTree} (s : SiteAt f p v L)
+    (g : List HTree → List HTree)
+    (h : ∀ z, f.allHandles.count z + (handlesList (g L)).count z ≤ 1 + (handlesList L).count z) :
+    (f.editAt (some p) g).allHandles.Nodup := by
+  rw [List.nodup_iff_count]
+  intro z
+  have := s.count g z
+  have := h z
+  omega
+
+theorem count_handles_mid (z : Nat) (l : List HTree) (t : HTree) (r : List HTree) :
+    (handlesList (l ++ t :: r)).count z = (handlesList (l ++ r)).count z + (handles t).count z := by
+  simp only [handlesList_append, handlesList_cons, List.count_append]
+  omega
+
+/-- An insertion adds at most the handles of `t`. -/
+theorem count_insert_le (z : Nat) (dest : Dest) (t : HTree) (L : List HTree) :
+    (handlesList (dest.insert t L)).count z ≤ (handlesList L).count z + (handles t).count z := by
+  have hrt : ∀ (r : Nat) (F : HTree → List HTree),
+      (∀ k, (handlesList (F k)).count z ≤ (handles k).count z + (handles t).count z) →
+      (handlesList (replaceTop r F L)).count z ≤ (handlesList L).count z + (handles t).count z := by
+    intro r F hF
+    induction L with
+    | nil => simp [replaceTop_nil, handlesList_nil]
+    | cons k ks ih =>
+      rw [replaceTop_cons]
+      split
+      · rw [handlesList_append, handlesList_cons, List.count_append, List.count_append]
+        have := hF k
+        omega
+      · rw [handlesList_cons, handlesList_cons, List.count_append, List.count_append]
+        omega
+  cases dest with
+  | lastChildOf p =>
+    simp only [Dest.insert, insertLast, handlesList_append, handlesList_cons, handlesList_nil, List.count_append,
+      List.append_nil]
+    omega
+  | firstNormalChildOf p =>
+    simp only [Dest.insert]
+    rw [insertFirstNormal_eq]
+    have := List.takeWhile_append_dropWhile (p := abn) (l := L)
+    conv => rhs; rw [← this]
+    simp only [handlesList_append, handlesList_cons, List.count_append]
+    omega
+  | after r =>
+    simp only [Dest.insert, insertAfterTop]
+    apply hrt
+    intro k
+    simp only [handlesList_cons, handlesList_nil, List.count_append, List.append_nil]
+    omega
+  | before r =>
+    simp only [Dest.insert, insertBeforeTop]
+    apply hrt
+    intro k
+    simp only [handlesList_cons, handlesList_nil, List.count_append, List.append_nil]
+    omega
+
+end XotModel
